@@ -23,7 +23,7 @@ RULE = (
 ASSUMPTIONS = [
     "freshness is decided as 'the registered RNG / key generator is consulted once per file / per ECC block and its output is what is used'; entropy of os.urandom is out of scope",
 ]
-REQUIRED_CLASSES = ["agree.blocks>=2", "agree.keyless", "agree.ecc", "splice.body=K1", "splice.body=K2", "splice.ecc", "splice.same-tag", "splice.unopened-between", "passthrough.unopened>=1", "passthrough.unopened-ends00", "passthrough.unknown-tag-block", "rekey.enc-component", "history.writes>=2", "history.keyless>=2"]
+REQUIRED_CLASSES = ["agree.blocks>=2", "agree.keyless", "agree.ecc", "splice.body=K1", "splice.body=K2", "splice.ecc", "splice.same-tag", "splice.unopened-between", "splice.empty-key", "splice.short-key", "passthrough.unopened>=1", "passthrough.unopened-ends00", "passthrough.unknown-tag-block", "rekey.enc-component", "history.writes>=2", "history.keyless>=2"]
 
 B2 = sut.B2
 
@@ -128,7 +128,17 @@ def check_splice(case, rec):
     if len([b for b in blocks if b["kind"] == "ecc"]) >= 2:
         rec.cls("splice.same-tag")
     rec.nt()
-    hb = [_wrap(blocks[0], k1, case["eph"])] + [_wrap(b, k2, case["eph"] + 1) for b in blocks[1:]]
+    if any(b.get("raw_payload") is not None for b in blocks):
+        # one customer-key block is a well-formed AES frame around a SHORT payload (0..15 bytes): it unwraps to that short "key"
+        # (the empty byte string for an empty payload); every other block wraps K2 and the body is under K2
+        rec.cls("splice.short-key")
+        if any(b.get("raw_payload") == b"" for b in blocks):
+            rec.cls("splice.empty-key")
+        hb = [(1, M.container_wrap(b["crypto_key"], b["raw_payload"])) if b.get("raw_payload") is not None else _wrap(b, k2, case["eph"] + i) for i, b in enumerate(blocks)]
+        k1 = [b["raw_payload"] for b in blocks if b.get("raw_payload") is not None][0]
+        body_key = k2
+    else:
+        hb = [_wrap(blocks[0], k1, case["eph"])] + [_wrap(b, k2, case["eph"] + 1) for b in blocks[1:]]
     comps = [dict(desc=[(0xC3, b"\x02")], blob=case["blob"], actual_len=len(case["blob"]), enc=False)]
     binary = M.bec2_binary(hb, comps, body_key)
     decs = [sut.mk_encryptor(b) for b in blocks if not b.get("unopened")]
@@ -140,8 +150,9 @@ def check_splice(case, rec):
         g = sut.Bec2File.read_file(io.StringIO(M.text([], binary)), decs)
     except Exception:
         return
-    raise Violation("a file whose blocks unwrap to different session keys (%s: %s, others: %s; body MACed under K%d) is accepted with session key %s" % (
-        blocks[0]["kind"], k1.hex(), k2.hex(), case["body"], bytes(g.session_key).hex()))
+    odd = ([b for b in blocks if b.get("raw_payload") is not None] or blocks[:1])[0]
+    raise Violation("a file whose blocks unwrap to different session keys (%s block: %s, others: %s; body MACed under %s) is accepted with session key %s" % (
+        odd["kind"], k1.hex() or "(empty byte string)", k2.hex(), "K2" if body_key == k2 else "K1", bytes(g.session_key).hex()))
 
 
 def check_passthrough(case, rec):
@@ -338,8 +349,15 @@ def strat_agree(tier):
 @st.composite
 def strat_splice(draw, tier="quick"):
     blocks = draw(S.auth_blocks(min_size=2, allow_default_ecc=False))
-    variant = draw(st.integers(0, 3))
-    if variant == 3:
+    variant = draw(st.integers(0, 4))
+    if variant == 4:
+        # a customer-key block whose frame holds a SHORT payload (it unwraps to a key of 0..15 bytes, in particular the empty one),
+        # before or after blocks that wrap the real key
+        short = dict(kind="cust", crypto_key=draw(st.binary(min_size=16, max_size=16)), customer_key=None,
+                     raw_payload=draw(st.one_of(st.just(b""), st.just(b""), st.binary(min_size=1, max_size=15))))
+        others = [b for b in blocks if b["kind"] != "cust"][:2] or [dict(kind="upd", code=draw(st.binary(min_size=8, max_size=8)), version=draw(st.integers(0, 255)))]
+        blocks = [short] + others if draw(st.booleans()) else others + [short]
+    elif variant == 3:
         # an UNOPENABLE block (ECC block for which no decryptor is supplied) BETWEEN two opened blocks that wrap different keys
         cust = dict(kind="cust", crypto_key=draw(st.binary(min_size=16, max_size=16)), customer_key=None)
         upd = dict(kind="upd", code=draw(st.binary(min_size=8, max_size=8)), version=draw(st.integers(0, 255)))
